@@ -11,7 +11,8 @@ CONSTANTS
   FixedStar = TRUE
   FixedFinalInString = TRUE
   FixedNestedLiteral = TRUE
-  AnnChoices = {"noann", "int", "QA", "OptInt", "T"}
+  BugBuiltinsFirst = FALSE
+  AnnChoices = {"noann", "int", "QTE", "OptInt", "T"}
   DefaultChoices = {"none", "int:1", "..."}
   RetChoices = {"noann", "int", "T"}
   AsyncChoices = {FALSE, TRUE}
